@@ -80,6 +80,14 @@ const (
 	lfWildUnderscore // f:b_*  (an underscore in a pattern is a literal)
 	lfWildPunct     // f:b.c* / f:b-c*
 	lfListMixed     // f:(1 OR 2.5)
+	lfRegexpBackslash // f:/x\\/  (a regexp whose pattern ends in an escaped backslash)
+	lfWildEscTail   // f:b?\*  (the pattern ends in an escaped wildcard character)
+	lfNonASCII3     // f:"x<3-byte rune>" incl. U+FFFD written out
+	lfWildRun       // f:b*?  (two wildcard characters in a row)
+	lfFloatLong     // f:0.123456789 / f:123456.789  (decimals beyond float32 precision)
+	lfGtFloatLong   // f:>123456.789
+	lfRangeSpecialLo // f:[nan TO 5]  (a range bound that spells a non-finite float is a string)
+	lfRangeSpecialHi // f:[b TO inf]
 	lfEqHuge        // f:12345678901234567890  (an integer beyond int64: Parse keeps it as a float64)
 	lfRangeWildLo   // f:[b* TO c]  (a string bound that contains a wildcard character stays a string)
 	lfRangeWildHi   // f:[b TO c?]
@@ -88,7 +96,7 @@ const (
 
 var leafNames = []string{"bare", "eq-str", "eq-int", "bare-int", "gt", "ge", "lt", "le", "range-incl", "range-excl", "range-lo", "range-hi",
 	"range-str", "list", "wild", "regexp", "quoted", "float", "bare-wild", "", "range-excl-str", "range-str-lo", "range-str-hi", "range-all",
-	"range-excl-lo", "range-excl-hi", "range-float", "range-float-excl", "list-int", "wild-mid", "regexp-short", "special-float", "range-str-comma", "eq-special", "empty-quoted", "bare-quoted-wild", "wild-field", "quoted-digits", "range-mixed", "quoted-nasty", "regexp-nasty", "range-big", "eq-big", "non-ascii", "range-whole-float", "quoted-wild", "quoted-regexp", "float-whole", "wild-esc", "wild-esc-wild", "wild-underscore", "wild-punct", "list-mixed", "eq-huge", "range-wild-lo", "range-wild-hi"}
+	"range-excl-lo", "range-excl-hi", "range-float", "range-float-excl", "list-int", "wild-mid", "regexp-short", "special-float", "range-str-comma", "eq-special", "empty-quoted", "bare-quoted-wild", "wild-field", "quoted-digits", "range-mixed", "quoted-nasty", "regexp-nasty", "range-big", "eq-big", "non-ascii", "range-whole-float", "quoted-wild", "quoted-regexp", "float-whole", "wild-esc", "wild-esc-wild", "wild-underscore", "wild-punct", "list-mixed", "regexp-backslash", "wild-esc-tail", "non-ascii-3", "wild-run", "float-long", "gt-float-long", "range-special-lo", "range-special-hi", "eq-huge", "range-wild-lo", "range-wild-hi"}
 
 // concreteFields makes field names the fixed sequence p, q, r, ... (one per leaf) instead of
 // symbolic bytes; used where rows have to be looked up by name.
@@ -251,6 +259,25 @@ func genLeaf(forms []int) *node {
 	case lfRangeBig, lfEqBig:
 		lf.field = holeField()
 		lf.d1, lf.i1 = "9007199254740993", 9007199254740993
+	case lfRegexpBackslash:
+		lf.field = holeField()
+		lf.s1 = string([]byte{'/', holeByte("str", strRest), '\\', '\\', '/'})
+	case lfWildEscTail:
+		lf.field = holeField()
+		lf.s1 = string([]byte{holeByte("str", strFirst), holeByte("wc", "*?"), '\\', holeByte("wc", "*?")})
+	case lfNonASCII3:
+		lf.field = holeField()
+		lf.s1 = "x" + []string{"\xef\xbf\xbd", "\xe2\x82\xac", "\xe0\xa4\x85"}[rtChoose("rune3", 3)]
+	case lfWildRun:
+		lf.field = holeField()
+		lf.s1 = string([]byte{holeByte("str", strFirst), holeByte("wc", "*?"), holeByte("wc", "*?")})
+	case lfFloatLong, lfGtFloatLong:
+		lf.field = holeField()
+		lf.d1 = []string{"0.123456789", "123456.789", "100000.001"}[rtChoose("longdec", 3)]
+	case lfRangeSpecialLo, lfRangeSpecialHi:
+		lf.field = holeField()
+		lf.s1 = []string{"nan", "inf", "Infinity", "NaN"}[rtChoose("special", 4)]
+		lf.d1, lf.i1 = holeInt()
 	case lfWildEsc:
 		lf.field = holeField()
 		lf.s1 = string([]byte{holeByte("str", strFirst), '\\', holeByte("escd", " :(\"+-"), holeByte("wc", "*?")})
@@ -402,8 +429,18 @@ func printLeaf(lf *leaf, o *printOpts) string {
 		return lf.field + ":(" + lf.s1 + sp(o) + kw("OR", o) + sp(o) + lf.s2 + ")"
 	case lfListMixed:
 		return lf.field + ":(" + lf.d1 + sp(o) + kw("OR", o) + sp(o) + "2.5)"
-	case lfWildEsc, lfWildEscWild, lfWildUnderscore, lfWildPunct:
+	case lfWildEsc, lfWildEscWild, lfWildUnderscore, lfWildPunct, lfRegexpBackslash, lfWildEscTail, lfWildRun:
 		return lf.field + ":" + lf.s1
+	case lfNonASCII3:
+		return lf.field + ":\"" + lf.s1 + "\""
+	case lfFloatLong:
+		return lf.field + ":" + lf.d1
+	case lfGtFloatLong:
+		return lf.field + ":>" + lf.d1
+	case lfRangeSpecialLo:
+		return lf.field + ":[" + lf.s1 + sp(o) + kw("TO", o) + sp(o) + lf.d1 + "]"
+	case lfRangeSpecialHi:
+		return lf.field + ":[" + lf.d1 + sp(o) + kw("TO", o) + sp(o) + lf.s1 + "]"
 	case lfWild, lfRegexp:
 		if o != nil && o.valuePar {
 			return lf.field + ":(" + lf.s1 + ")"
@@ -697,8 +734,10 @@ func matchLeaf(e *expr.Expression, lf *leaf, df string) bool {
 		return rtAnd(litColumn(e.Left, lf.field), rtAnd(litInt(items[0], lf.i1), litInt(items[1], lf.i2)))
 	case lfWild:
 		return e.Op == expr.Like && rtAnd(litColumn(e.Left, lf.field), litKind(e.Right, expr.Wild, lf.s1))
-	case lfRegexp:
+	case lfRegexp, lfRegexpBackslash:
 		return e.Op == expr.Like && rtAnd(litColumn(e.Left, lf.field), litKind(e.Right, expr.Regexp, lf.s1))
+	case lfNonASCII3:
+		return e.Op == expr.Equals && rtAnd(litColumn(e.Left, lf.field), litString(e.Right, lf.s1))
 	}
 	return false
 }
